@@ -544,3 +544,131 @@ func R40() Rule {
 		}
 	}}
 }
+
+// ---------------------------------------------------------------------------
+// R41: every store call inside a critical section refers to the locked object
+// ---------------------------------------------------------------------------
+
+// R41: inside the closure run under lockName(B, N), the (bucket, name)
+// arguments of Store.GetMeta / Get / Add / UpdateMeta / Delete are exactly
+// (B, N).  Reasoned exceptions: the source arguments of Copy, and the source
+// reads of compose (checked in finishCompose by their provenance: the ranged
+// source list).
+func R41() Rule {
+	return Rule{Name: "R41", Run: func(c *core.Ctx) {
+		P := c.P
+		n := 0
+		for _, fn := range P.SrcFuncs(core.PkgGcsemu) {
+			sec, _ := sectionOfClosure(P, fn)
+			if sec == nil {
+				continue
+			}
+			kb, kn := substKey(sec.bucket, nil, 0), substKey(sec.name, nil, 0)
+			k := 0
+			for _, ci := range core.AllCalls(fn) {
+				var bi, ni int
+				switch {
+				case isStoreCall(ci, "GetMeta", "Get"):
+					bi, ni = 1, 2
+				case isStoreCall(ci, "Add", "UpdateMeta", "Delete"):
+					bi, ni = 0, 1
+				default:
+					continue
+				}
+				n++
+				k++
+				c.Fn(core.FuncName(fn))
+				construct := fmt.Sprintf("%s/Store.%s#%d/same-object-as-lock", core.FuncName(fn), ci.Method.Name(), k)
+				ab, an := substKey(ci.Common.Args[bi], nil, 0), substKey(ci.Common.Args[ni], nil, 0)
+				if ab == kb && an == kn {
+					c.Ok("R41", construct, ci.Instr.Pos(), true, "operates on the object the critical section is keyed on")
+				} else {
+					c.Bad("R41", construct, ci.Instr.Pos(), "inside the critical section of (%s, %s) the store is asked about (%s, %s): the answer describes an object this request does not hold", kb, kn, ab, an)
+				}
+			}
+		}
+		if n < 6 {
+			c.Unknown("R41", "floor/calls", token.NoPos, "only %d store calls found inside critical sections", n)
+		}
+	}}
+}
+
+// ---------------------------------------------------------------------------
+// R42: bytes handed out by the store are never appended to
+// ---------------------------------------------------------------------------
+
+// R42: the content slice returned by Store.Get is the stored slice itself
+// (memory store); appending to it, or to a slice that may alias it, writes
+// into spare capacity shared with the stored object and with every other
+// slice derived from it.
+func R42() Rule {
+	return Rule{Name: "R42", Run: func(c *core.Ctx) {
+		P := c.P
+		fromStore := func(v ssa.Value) bool {
+			seen := map[ssa.Value]bool{}
+			var walk func(v ssa.Value, d int) bool
+			walk = func(v ssa.Value, d int) bool {
+				v = core.Strip(v)
+				if d > 10 || seen[v] {
+					return false
+				}
+				seen[v] = true
+				switch x := v.(type) {
+				case *ssa.Extract:
+					if call, ok := x.Tuple.(*ssa.Call); ok && x.Index == 1 && isStoreCall(core.Call(call), "Get") {
+						return true
+					}
+				case *ssa.Phi:
+					for _, e := range x.Edges {
+						if walk(e, d+1) {
+							return true
+						}
+					}
+				case *ssa.Slice:
+					return walk(x.X, d+1)
+				case *ssa.UnOp:
+					if cell := core.CellOf(x.X); cell != nil {
+						for _, st := range core.StoresTo(cell) {
+							if walk(st.Val, d+1) {
+								return true
+							}
+						}
+					}
+				}
+				return false
+			}
+			return walk(v, 0)
+		}
+		n, bad := 0, 0
+		for _, fn := range P.SrcFuncs(core.PkgGcsemu) {
+			k := 0
+			for _, b := range fn.Blocks {
+				for _, in := range b.Instrs {
+					call, ok := in.(*ssa.Call)
+					if !ok {
+						continue
+					}
+					bi, ok := call.Call.Value.(*ssa.Builtin)
+					if !ok || bi.Name() != "append" {
+						continue
+					}
+					if sl, ok := call.Call.Args[0].Type().Underlying().(*types.Slice); !ok || !types.Identical(sl.Elem(), types.Typ[types.Byte]) {
+						continue
+					}
+					n++
+					if fromStore(call.Call.Args[0]) {
+						bad++
+						k++
+						c.Bad("R42", fmt.Sprintf("%s/append-to-stored-bytes#%d", core.FuncName(fn), k), call.Pos(), "append's destination may be the content slice handed out by Store.Get (the stored slice itself in the memory store): the appended bytes land in capacity shared with the stored object and with other results built from it")
+					}
+				}
+			}
+		}
+		if bad == 0 {
+			c.Ok("R42", "no-append-to-stored-bytes", token.NoPos, true, "%d byte-slice appends in gcsemu; none has a Store.Get content slice as its destination", n)
+		}
+		if n < 2 {
+			c.Unknown("R42", "floor", token.NoPos, "only %d byte-slice appends found", n)
+		}
+	}}
+}
